@@ -31,18 +31,29 @@ def log(*a):
     print(*a, file=sys.stderr, flush=True)
 
 
-def sh(cmd, cwd=None, timeout=None, env=None, input=None, check=False, clean_env=False):
-    """Run a command, return (rc, stdout, stderr) as text."""
+def _cpu_limiter(seconds):
+    def f():
+        import resource
+        resource.setrlimit(resource.RLIMIT_CPU, (seconds, seconds + 5))
+    return f
+
+
+def sh(cmd, cwd=None, timeout=None, env=None, input=None, check=False, clean_env=False, cpu=None):
+    """Run a command, return (rc, stdout, stderr) as text.  cpu = limit on processor seconds (termination checks
+    use it so that a loaded machine does not turn into a false 'does not terminate'); rc 124 for either limit."""
     e = {} if clean_env else dict(os.environ)
     if env:
         e.update(env)
     try:
         p = subprocess.run(cmd, cwd=cwd, timeout=timeout, env=e, input=input,
                            stdout=subprocess.PIPE, stderr=subprocess.PIPE,
-                           shell=isinstance(cmd, str))
+                           shell=isinstance(cmd, str), preexec_fn=_cpu_limiter(cpu) if cpu else None)
         out = p.stdout.decode("utf-8", "replace") if isinstance(p.stdout, bytes) else p.stdout
         err = p.stderr.decode("utf-8", "replace") if isinstance(p.stderr, bytes) else p.stderr
         rc = p.returncode
+        if cpu and rc in (-24, -9):        # SIGXCPU (soft limit) / SIGKILL (hard limit)
+            rc = 124
+            err += "\nCPU LIMIT"
     except subprocess.TimeoutExpired as ex:
         out = (ex.stdout or b"").decode("utf-8", "replace")
         err = (ex.stderr or b"").decode("utf-8", "replace") + "\nTIMEOUT"
